@@ -331,12 +331,35 @@ Theorem C11_memo_policies_example :
   nth 1 (root_views (run_hevents K1 c1 ops) 6) CCut = nth 1 (root_views c1 6) CCut.
 Proof. exact ex_memo_policies. Qed.
 
-(* #21 (C12's finding, outside C11's claim): reindex shares object-dtype cells (the Trace objects) with the original *)
-Theorem C11_reindex_shares_object_cells_refuted :
-  let s1 := run_events K0 s_al [EReindex 1 (new_list [2002; 2004; 2006; 2008]) 4 [(0, 1); (1, 2)]
-                                         [(N_status, 101); (N_iterations, -2); (201, 0); (203, 0); (205, 0); (N_trace, 121)]] in
-  length (sroots s1) = 3%nat /\ sharing s1 <> [].
-Proof. exact reindex_shares_object_cells_refuted. Qed.
+(* #21 repaired (fixes af303e7 / 28b2a9a; was C11_reindex_shares_object_cells_refuted): reindex() - whatever span object the caller
+   hands in, whatever the series hold - returns an object that reaches only NEW objects; the original and every other existing
+   object are literally unchanged; nothing is shared *)
+Theorem C11_reindex_disjoint K h r span n' pos fills h' r' b :
+  reindex_M K h r span n' pos fills = Some (h', r') -> wf h -> (b < length h)%nat ->
+  wf h' /\ same_subheap h h' b /\ sep h' r' b /\ (forall l, reach h' r' l -> (length h <= l)%nat).
+Proof. exact (reindex_disjoint K h r span n' pos fills h' r' b). Qed.
+
+(* reindex is an admitted event of EVERY history theorem above (C11_history_independent, C11_operation_history_independent,
+   C11_copy_then_any_operations, ...): independence under later histories holds for reindex results as for copies *)
+Theorem C11_reindex_is_an_admitted_event i span n' positions fills :
+  event_ok (EReindex i span n' positions fills) = true /\ hevent_ok (HEv (EReindex i span n' positions fills)) = true.
+Proof. exact (conj eq_refl eq_refl). Qed.
+
+(* ... on the former witness: nothing shared; recording into the result's Trace leaves the original's; reindex(obj.span) with the
+   original's own span LIST handed in by reference shares nothing either *)
+Theorem C11_reindex_example :
+  let ev := EReindex 1 (new_list [2002; 2004; 2006; 2008]) 4 [(0, 1); (1, 2)]
+                     [(N_status, 101); (N_iterations, -2); (201, 0); (203, 0); (205, 0); (N_trace, 121)] in
+  let s1 := run_events K0 s_al [ev] in
+  event_ok ev = true /\ length (sroots s1) = 3%nat /\ sharing s1 = [] /\
+  (let s2 := run_hevents K0 s1 [HOps 2 [OTraceT 0 507 TMNames false; OPathAppend [V N_trace; 0; A N_names] 777]] in
+   nth 1 (root_views s2 7) CCut = nth 1 (root_views s1 7) CCut /\ nth 2 (root_views s2 7) CCut <> nth 2 (root_views s1 7) CCut) /\
+  (let own := match nth_error (sh s_al_list) 5 with
+              | Some o => match cell_get (A N_span) (ocells o) with Some (VR l) => l | _ => O end | None => O end in
+   let s3 := run_events K0 s_al_list [EReindex 1 (SArg own) 3 [(0, 0); (1, 1); (2, 2)]
+                                               [(N_status, 101); (N_iterations, -2); (201, 0); (203, 0); (205, 0); (N_trace, 121)]] in
+   length (sroots s3) = 3%nat /\ sharing s3 = []).
+Proof. exact ex_reindex_shares_nothing. Qed.
 
 Print Assumptions C11_deepcopy_fresh.
 Print Assumptions C11_deepcopy_observationally_equal.
@@ -354,7 +377,9 @@ Print Assumptions C11_tracer_class_list_no_leak_example.
 Print Assumptions C11_shared_span_argument_refuted.
 Print Assumptions C11_copy_of_traced_model_stays_equal.
 Print Assumptions C11_memo_policies_example.
-Print Assumptions C11_reindex_shares_object_cells_refuted.
+Print Assumptions C11_reindex_disjoint.
+Print Assumptions C11_reindex_is_an_admitted_event.
+Print Assumptions C11_reindex_example.
 Print Assumptions C11_every_operation_is_tight.
 Print Assumptions C11_operation_history_independent.
 Print Assumptions C11_copy_then_any_operations.
